@@ -20,7 +20,9 @@ use std::collections::{BTreeMap, BTreeSet};
 use std::io::{BufRead, Write};
 use std::time::{Duration, Instant};
 
-const BUILD: &str = if cfg!(feature = "world_fx") {
+const BUILD: &str = if cfg!(feature = "world_nc") {
+    "world_nc"
+} else if cfg!(feature = "world_fx") {
     "world_fx"
 } else if cfg!(feature = "world_dyn") {
     "world_dyn"
@@ -247,6 +249,7 @@ fn check(args: &[String]) -> i32 {
             Batch { label: "sessions_server_config", binary: "world_ssr", mode: "session", extra: json!({"ows": false}), runs: if thorough { 600_000 } else { 60_000 } },
             Batch { label: "sessions_optional_whitespace", binary: "world_ssr", mode: "session", extra: json!({"ows": true}), runs: if thorough { 200_000 } else { 20_000 } },
             Batch { label: "streaming_render_slice", binary: "world_dyn", mode: "server", extra: json!({}), runs: if thorough { 300_000 } else { 30_000 } },
+            Batch { label: "sessions_cookie_feature_off", binary: "world_nc", mode: "session", extra: json!({"ows": false}), runs: if thorough { 200_000 } else { 20_000 } },
         ],
         "C17" => vec![Batch { label: "streaming_requests", binary: "world_dyn", mode: "server", extra: json!({}), runs: if thorough { 1_000_000 } else { 100_000 } }],
         _ => simkit::harness_error("sim_world serves C15, C16 and C17"),
